@@ -6,12 +6,14 @@ pub mod gen;
 pub mod c16;
 pub mod c16de;
 pub mod c16ev;
+pub mod c16evjson;
 pub mod c16ser;
 pub mod c19;
 
 pub use c16::*;
 pub use c16de::*;
 pub use c16ev::*;
+pub use c16evjson::*;
 pub use c16ser::*;
 pub use c19::*;
 
